@@ -1551,3 +1551,97 @@ Proof.
         apply (ScanInv_step v done acc false false c _ e' f' true true false); scan_side.
     + discriminate.
 Qed.
+
+Lemma all_empty_count v cs seq :
+  Forall2 (StOK v) cs seq -> Forall (fun c => proper c = true) cs -> Forall (PureE v) cs ->
+  count_st SEmpty seq = length seq.
+Proof.
+  induction 1 as [|c st cs seq Hc H IH]; intros Hp HF; [reflexivity|].
+  inversion Hp; subst. inversion HF; subst. rewrite count_st_cons.
+  rewrite (StOK_E v c st) by assumption. simpl. f_equal. now apply IH.
+Qed.
+
+Lemma Partial_from_counts v k cs seq :
+  Forall2 (StOK v) cs seq -> Forall (fun c => proper c = true) cs ->
+  count_st SFull seq <> length seq -> count_st SEmpty seq <> length seq -> Partial v (Node k cs).
+Proof.
+  intros HS Hp HF HE. split; intros H.
+  - apply Pure_node_E in H. apply HE. now apply (all_empty_count v cs seq).
+  - apply Pure_node_F in H. apply HF. now apply (all_full_count v cs seq).
+Qed.
+
+Theorem q_body_post v cs seq t' st :
+  2 <= length cs -> Forall (fun c => proper c = true) cs -> Forall2 (StOK v) cs seq ->
+  q_body v cs seq = Ok (t', st) -> CasePost v KQ cs True t' st.
+Proof.
+  intros Hn Hp HS Hres. unfold q_body in Hres.
+  pose proof (Forall2_len' _ _ _ HS) as Hlen. pose proof (count_st_total seq) as Htot.
+  destruct (impossible _ _ _ _) eqn:Eimp; [discriminate|].
+  unfold impossible in Eimp. apply orb_false_iff in Eimp. destruct Eimp as [E1 E2]. apply Nat.ltb_ge in E1.
+  assert (Hsame : forall s0, StOK v (Node KQ cs) s0 -> CasePost v KQ cs True (Node KQ cs) s0).
+  { intros s0 Hs0. split; [exact Hs0|]. split; [split; [destruct cs; [simpl in Hn; lia|discriminate]|exact Hp]|].
+    split; [intros _; now apply proper_node_iff|]. split; [reflexivity|apply Ref_refl]. }
+  destruct (count_st SFull seq =? length cs) eqn:EF.
+  { apply Nat.eqb_eq in EF. inversion Hres; subst. rewrite Hlen in EF. apply Hsame. simpl.
+    apply Pure_node_F. exact (count_st_all _ SFull _ _ HS EF). }
+  destruct (count_st SEmpty seq =? length cs) eqn:EE.
+  { apply Nat.eqb_eq in EE. inversion Hres; subst. rewrite Hlen in EE. apply Hsame. simpl.
+    apply Pure_node_E. exact (count_st_all _ SEmpty _ _ HS EE). }
+  apply Nat.eqb_neq in EF, EE.
+  assert (HPart : Partial v (Node KQ cs)) by (apply (Partial_from_counts v KQ cs seq); auto; congruence).
+  destruct (count_st SPartU seq =? 1) eqn:EPU.
+  { apply Nat.eqb_eq in EPU. inversion Hres; subst.
+    rewrite EPU in E2. change (1 <=? 1) with true in E2. cbn [andb] in E2. apply negb_false_iff, Nat.eqb_eq in E2.
+    destruct (one_non_empty (StOK v) SPartU cs seq HS) as (es & c & es2 & -> & HE & Hc & _ & _);
+      [discriminate|lia|exact EPU|].
+    simpl in Hc. destruct Hc as [HcCF HcP]. simpl in HE. apply Forall_app in HE. destruct HE as [HE1 HE2].
+    apply Hsame. simpl. split; [now apply CF_QX|exact HPart]. }
+  apply Nat.eqb_neq in EPU.
+  assert (HnoPU : count_st SPartU seq = 0).
+  { destruct (count_st SPartU seq) as [|k] eqn:EK; [reflexivity|]. change (1 <=? S k) with true in E2.
+    cbn [andb] in E2. apply negb_false_iff, Nat.eqb_eq in E2. lia. }
+  destruct ((count_st SPartA seq =? 1) && (S (count_st SEmpty seq) =? length cs)) eqn:Ei.
+  { apply andb_true_iff in Ei. destruct Ei as [Ei1 Ei2]. apply Nat.eqb_eq in Ei1, Ei2. inversion Hres; subst.
+    destruct (one_non_empty_last (StOK v) SPartA cs seq HS) as (es & c & es2 & -> & HE & Hc & Hlast);
+      [discriminate|lia|exact Ei1|].
+    simpl in Hc. destruct Hc as [HcA HcP]. simpl in HE. apply Hsame.
+    destruct (status_eqb (last seq SFull) SPartA) eqn:EL.
+    - apply status_eqb_eq, Hlast in EL. subst es2. rewrite app_nil_r in HE. simpl. split; [|exact HPart].
+      now apply (Al_QX false v es c).
+    - simpl. split; [|exact HPart]. apply Forall_app in HE. destruct HE as [HE1 HE2].
+      apply CF_QX; auto. now apply (Al_CF false). }
+  (* the scan *)
+  destruct (q_scan v (combine cs seq) [] false false) as [[acc' sre']|e] eqn:Escan; [|discriminate].
+  inversion Hres; subst. clear Hres.
+  assert (Hinv0 : ScanInv v [] [] false false).
+  { split; [constructor|]. split; [simpl; lia|]. split; [constructor|]. split; [apply PiecesL_refl|].
+    exists [], [], []. repeat split; constructor. }
+  destruct (q_scan_post v cs seq HS Hp [] [] false false _ Hinv0 Escan) as (sn' & Hinv). simpl in Hinv.
+  destruct Hinv as (Hpa & Hla & Hperma & Hpieces & e1 & fs & e2 & -> & HE1 & HF & HE2 & _ & Hsre).
+  assert (HCF : CF v (Node KQ (e1 ++ fs ++ e2))) by now apply CF_QF.
+  assert (HPart' : Partial v (Node KQ (e1 ++ fs ++ e2))) by (apply (Partial_perm v (Node KQ cs)); auto).
+  split; [|split; [|split; [|split]]].
+  - destruct sre'; simpl; split; auto.
+    rewrite (Hsre eq_refl), app_nil_r in *. now apply (Al_QF false v e1 fs).
+  - split; [|exact Hpa]. intros E0. rewrite E0 in Hla. simpl in Hla. lia.
+  - intros _. apply proper_node_iff. split; [lia|exact Hpa].
+  - exact Hperma.
+  - intros o Ho. apply Ord_Q in Ho. apply Ord_Q. destruct Hpieces as [Hf Hb]. destruct Ho; [left|right]; auto.
+Qed.
+
+Theorem q_cases_post v cs0 seq0 t' st :
+  2 <= length cs0 -> Forall (fun c => proper c = true) cs0 -> Forall2 (StOK v) cs0 seq0 ->
+  q_cases v cs0 seq0 = Ok (t', st) -> CasePost v KQ cs0 True t' st.
+Proof.
+  intros Hn Hp HS Hres. rewrite q_cases_body in Hres. cbv zeta in Hres.
+  destruct (status_eqb (last seq0 SFull) SEmpty || _) eqn:Eflip.
+  - (* the children were reversed *)
+    assert (HS' : Forall2 (StOK v) (rev cs0) (rev seq0)) by now apply Forall2_rev.
+    assert (Hp' : Forall (fun c => proper c = true) (rev cs0)) by now apply Forall_rev.
+    assert (Hn' : 2 <= length (rev cs0)) by now rewrite rev_length.
+    destruct (q_body_post v (rev cs0) (rev seq0) t' st Hn' Hp' HS' Hres) as (H1 & H2 & H3 & H4 & H5).
+    split; [exact H1|]. split; [exact H2|]. split; [exact H3|]. split.
+    + etransitivity; [|exact H4]. apply flat_map_perm, Permutation_rev.
+    + intros o Ho. apply H5 in Ho. apply Ord_Q in Ho. apply Ord_Q. rewrite rev_involutive in Ho. tauto.
+  - now apply (q_body_post v cs0 seq0).
+Qed.
